@@ -13,14 +13,14 @@ Definition allowed_of (cl : pystr) : list pystr :=
   else default_scopes.
 Definition mk_cfg (oidc revoke_on_issue : bool) : cfg :=
   mkCfg oidc allowed_of [Access; Refresh; IdTok] 300 600 [Access; Refresh; IdTok] 3600 300 43200 3600
-        revoke_on_issue true.
+        revoke_on_issue true false.
 (* the boundary registration: the third client is allowed no scope at all (allowed_scopes = []), which is not the
    same as having no allowed_scopes entry (= every scope the provider knows) *)
 Definition allowed_of_e3 (e3 : bool) (cl : pystr) : list pystr :=
   if e3 && str_eqb cl (PS "client_12") then [] else allowed_of cl.
 Definition mk_cfg3 (oidc revoke_on_issue e3 : bool) : cfg :=
   mkCfg oidc (allowed_of_e3 e3) [Access; Refresh; IdTok] 300 600 [Access; Refresh; IdTok] 3600 300 43200 3600
-        revoke_on_issue true.
+        revoke_on_issue true false.
 
 (* hr: the provider has no usage rule at all (neither in grant_config nor per client): every token gets the lifetime
    of its token handler (code 600, access 3600, refresh 86400 in the harness configuration) and what it may mint is the
@@ -28,8 +28,13 @@ Definition mk_cfg3 (oidc revoke_on_issue e3 : bool) : cfg :=
 Definition mk_cfg4 (oidc revoke_on_issue e3 hr : bool) : cfg :=
   if hr then
     mkCfg oidc (allowed_of_e3 e3) [Access; Refresh; IdTok] 600 3600 [Access; Refresh] 86400 300 43200 3600
-          revoke_on_issue true
+          revoke_on_issue true false
   else mk_cfg3 oidc revoke_on_issue e3.
+(* ri: session_params.remove_inactive_token is on *)
+Definition with_remove_inactive (ri : bool) (c : cfg) : cfg :=
+  mkCfg (c_oidc c) (c_allowed c) (c_code_mints c) (c_code_exp c) (c_access_exp c) (c_refresh_mints c) (c_refresh_exp c)
+        (c_idtok_exp c) (c_grant_exp c) (c_authn_valid c) (c_revoke_refresh_on_issue c) (c_shared_key c) ri.
+Definition mk_cfg5 (oidc revoke_on_issue e3 hr ri : bool) : cfg := with_remove_inactive ri (mk_cfg4 oidc revoke_on_issue e3 hr).
 
 Definition opt_eqb {A} (e : A -> A -> bool) (x y : option A) : bool :=
   match x, y with Some a, Some b => e a b | None, None => true | _, _ => false end.
@@ -68,7 +73,7 @@ Definition snap := (list grant * list (list (nat * token)))%type.
 Fixpoint ids_from (i : nat) (ts : list token) : list (nat * token) :=
   match ts with [] => [] | t :: r => (i, t) :: ids_from (S i) r end.
 Definition issued (s : st) (gi : nat) : list (nat * token) :=
-  List.filter (fun it => Nat.eqb (t_grant (snd it)) gi) (ids_from 0 (toks s)).
+  List.filter (fun it => Nat.eqb (t_grant (snd it)) gi && negb (t_gone (snd it))) (ids_from 0 (toks s)).
 Definition snapshot (s : st) : snap :=
   (grants s, List.map (issued s) (seq 0 (length (grants s)))).
 Definition itok_eqb (a b : nat * token) : bool := Nat.eqb (fst a) (fst b) && tok_eqb (snd a) (snd b).
@@ -76,7 +81,7 @@ Definition snap_eqb (a b : snap) : bool :=
   list_eqb grant_eqb (fst a) (fst b) && list_eqb (list_eqb itok_eqb) (snd a) (snd b).
 
 (* a case: configuration, the operations with the implementation's outcomes, the implementation's final state *)
-Definition hist := (bool * bool * bool * bool * list (op * out) * snap)%type.
+Definition hist := (bool * bool * bool * bool * bool * list (op * out) * snap)%type.
 Fixpoint outs_ok (c : cfg) (s : st) (tr : list (op * out)) : bool * st :=
   match tr with
   | [] => (true, s)
@@ -84,8 +89,8 @@ Fixpoint outs_ok (c : cfg) (s : st) (tr : list (op * out)) : bool * st :=
                    if out_eqb x y then outs_ok c s1 r else (false, s1)
   end.
 Definition chk_hist (h : hist) : bool :=
-  let '(oidc, roi, e3, hr, tr, fin) := h in
-  let '(ok, s) := outs_ok (mk_cfg4 oidc roi e3 hr) init tr in
+  let '(oidc, roi, e3, hr, ri, tr, fin) := h in
+  let '(ok, s) := outs_ok (mk_cfg5 oidc roi e3 hr ri) init tr in
   ok && snap_eqb (snapshot s) fin.
 
 (* diagnostics: index of the first differing outcome and the model's outcome there, or the model's final state *)
@@ -96,8 +101,8 @@ Fixpoint first_diff (c : cfg) (s : st) (i : nat) (tr : list (op * out)) : option
                    if out_eqb x y then first_diff c s1 (S i) r else inl (Some (i, y))
   end.
 Definition diag_hist (h : hist) :=
-  let '(oidc, roi, e3, hr, tr, fin) := h in
-  match first_diff (mk_cfg4 oidc roi e3 hr) init 0 tr with
+  let '(oidc, roi, e3, hr, ri, tr, fin) := h in
+  match first_diff (mk_cfg5 oidc roi e3 hr ri) init 0 tr with
   | inl d => inl d
   | inr s => inr (snapshot s)
   end.
